@@ -202,6 +202,8 @@ func (o *functionOperator) Next(ctx context.Context) ([]model.StepVector, error)
 			continue
 		}
 
+		// Samples for which the function has no result are dropped from the vector.
+		n := 0
 		for i := range vector.Samples {
 			o.pointBuf[0].V = vector.Samples[i]
 			// Call function by separately passing major input and scalars.
@@ -211,9 +213,16 @@ func (o *functionOperator) Next(ctx context.Context) ([]model.StepVector, error)
 				StepTime:     vector.T,
 				ScalarPoints: o.scalarPoints[batchIndex],
 			})
+			if result.Point == InvalidSample.Point {
+				continue
+			}
 
-			vector.Samples[i] = result.V
+			vector.Samples[n] = result.V
+			vector.SampleIDs[n] = vector.SampleIDs[i]
+			n++
 		}
+		vectors[batchIndex].Samples = vector.Samples[:n]
+		vectors[batchIndex].SampleIDs = vector.SampleIDs[:n]
 	}
 
 	return vectors, nil
